@@ -69,4 +69,93 @@ PROPS["C13"] = dict(
     assumptions=["element parsers are local on list elements (hypothesis LocalOn)"],
 )
 
+PROPS["C09"] = dict(
+    lean=["SqlVerif.Props.C09"],
+    namespaces=["SqlVerif.Props.C09"],
+    required=["SqlVerif.Props.C09.next_token_progress", "SqlVerif.Props.C09.tile", "SqlVerif.Props.C09.progress",
+              "SqlVerif.Props.C09.token_count_le", "SqlVerif.Props.C09.never_out_of_fuel",
+              "SqlVerif.Props.C09.loc_true", "SqlVerif.Props.C09.strictly_increasing",
+              "SqlVerif.Props.C09.strictly_increasing_tokenize", "SqlVerif.Props.C09.suffix_stable",
+              "SqlVerif.Props.C09.suffix_is_drop", "SqlVerif.Props.C09.slice_is_text",
+              "SqlVerif.Props.C09.next_token_text"],
+    corr=["tok"],
+    unique_output={"tok": True},
+    oracle=[],
+    level_text="Proved in Lean for every dialect row, both un-escape modes, arbitrary character predicates and every input, on a hand-written executable model of Tokenizer (State, tokenize_with_location, next_token branch by branch in source order, all literal scanners): the slices consumed by the tokens concatenate to exactly the input (nothing dropped, duplicated or reordered), every token consumes at least one character, the reported (line, col) of each token is 1 + the number of newlines / 1 + the number of characters after the last newline of the text before it, locations increase strictly, tokenizing from any token boundary yields the remaining tokens with the same slices (next_token never reads line/col), the loop never runs out of fuel, and for every token that determines its text (unquoted words, numbers, punctuation/operators, placeholders, custom operators, line and block comments, Tab, Char) the slice is exactly that text. All of it follows from one lemma proved for every branch of next_token (a token consumes a non-empty prefix of the remaining input). The model is tied to the code by the `tok` stream: full token vectors with locations and error values (message and location) of the real tokenize_with_location vs the compiled model on every corpus literal x rotating dialects x both modes and on a fragment soup (all operator spellings, quote/prefix/dollar/comment openers, numbers and exponents, every whitespace kind, identifiers with @ # $ _, non-ASCII and astral characters, backslash escapes: every fragment x 13 dialects, all ordered pairs adjacent and spaced, prefix x quote x body grids, dollar-quote and nested-comment grids, random concatenations); tokenize is a function, so a disagreement on a request is a violation of the tie.",
+    level_note="Trusted: Lean kernel (axioms propext, Classical.choice, Quot.sound); the hand-written model (Model/Tokenizer.lean, Model/Scan.lean), validated by the differential only on the generated and corpus inputs; Rust's Unicode predicates, char::to_uppercase and the four char->bool dialect methods are parameters whose real values travel with each request; dialect_of! tests are modelled as tests on the dialect name (true for the 13 built-in dialects, not for wrapper dialects); Token.text (the text a token stands for) is a definition of the theorem file, not checked against Display. Not claimed: slice = text for quoted literals / delimited identifiers (C06/C20), Neq (<> or !=), Newline (\\n, \\r, \\r\\n), Space (any whitespace char), HexStringLiteral; no direct oracle on the real code yet (correspondence only).",
+    technique="Lean 4 proof (generic tokenizer-loop theorems + per-branch suffix and text lemmas on an executable model) + differential tokenizer stream with locations and errors",
+    trusted_base=["Model/Tokenizer.lean and Model/Scan.lean mirror src/tokenizer.rs 500-1881 by hand",
+                  "Unicode predicates, to_uppercase and dialect char predicates are model parameters (real values sent per request)",
+                  "dialect_of! is modelled as a test on the built-in dialect's name"],
+    assumptions=["Gen/Dialects.lean and Gen/Keywords.lean are the tables of the crate as built from /repo's working tree"],
+)
+
+PROPS["C04"] = dict(
+    lean=["SqlVerif.Props.C04"],
+    namespaces=["SqlVerif.Props.C04"],
+    required=["SqlVerif.Props.C04.yield", "SqlVerif.Props.C04.shape", "SqlVerif.Props.C04.shape_binary",
+              "SqlVerif.Props.C04.shape_prefix", "SqlVerif.Props.C04.shape_between", "SqlVerif.Props.C04.shape_like",
+              "SqlVerif.Props.C04.shape_levels", "SqlVerif.Props.C04.unique_bracketing",
+              "SqlVerif.Props.C04.climbSpec_wellShaped", "SqlVerif.Props.C04.parse_eq_climbSpec",
+              "SqlVerif.Props.C04.nested_preserved", "SqlVerif.Props.C04.nested_closes",
+              "SqlVerif.Props.C04.levels_consistent", "SqlVerif.Props.C04.keyword_classes"],
+    corr=["prec", "chains"],
+    unique_output={"prec": False, "chains": False},
+    oracle=[],
+    level_text="Proved in Lean on a hand-written executable model of the Pratt expression parser (parse_subexpr, get_next_precedence with the PostgreSQL/Snowflake overrides, parse_prefix on a fragment, parse_infix with MySQL DIV, NOT, unary sign, PostgreSQL prefix operators, IS-family, [NOT] IN list, [NOT] BETWEEN, LIKE-family with ESCAPE, AT TIME ZONE, ::type, ANY/ALL/SOME, parentheses, recursion counter), for EVERY precedence table and flag record (the 13 built-in rows are instances), every fuel, recursion depth, context precedence and token list: (yield) the consumed tokens are exactly the in-order yield of the tree; (shape) the tree is well shaped - at every binary/mixfix/postfix node nothing exposed on the right edge of the left operand binds looser than the node and nothing exposed on the left edge of the right operand binds looser-or-equal (left associativity), NOT / unary sign / PostgreSQL prefix operators parse their operand at UnaryNot / MulDivModOp / PlusMinus, BETWEEN bounds above Between, LIKE patterns above Like, IS DISTINCT FROM, AT TIME ZONE and casts at Is, AtTz, DoubleColon, and the loop stops only when the next token's precedence is <= the context; (unique_bracketing) two well-shaped trees over identifiers and binary operators with the same yield are equal, and (parse_eq_climbSpec) on operand (operator operand)* input the parser's tree is the tree of an independently defined left-to-right fold; (nested_preserved) a parenthesised group is parsed at level unknown whatever the context, appears as Nested and closes both edges. The model is tied to the code by an exhaustive differential of get_next_precedence (every dialect x token x look-ahead) and by all operator pairs (+ triples, prefixes, parentheses, truncations, nesting around the recursion limit, random chains) per dialect. Partial: uniqueness is proved for identifier/binary-operator chains only (general statement kept as FullStatement); set operations (UNION/EXCEPT/INTERSECT) are not covered by a theorem here.",
+    level_note="Trusted: Lean kernel (axioms propext, Classical.choice, Quot.sound); the hand-written model (Model/Tok.lean, Model/Expr.lean, Model/Pratt.lean), validated by the differential on the generated chains only; Gen/Dialects.lean and Gen/Keywords.lean as dumped from the running crate; COLLATE_PREC/BRACKET_PREC of postgresql.rs are constants of Cfg.ofRow (120/130), checked by the prec stream. Outside the fragment (functions, subqueries, tuples, CASE/CAST, subscripts, COLLATE, typed strings, lambdas, OPERATOR(...), trailing commas in IN lists) the model answers UNSUPPORTED and the line is skipped (quick tier: 0.6% of lines). A disagreement on a pure infix chain is a violation (unique_bracketing); elsewhere it is reported as a broken tie.",
+    technique="Lean 4 proof (simultaneous fuel induction over a mutual executable Pratt model; Cartesian-tree uniqueness; reference fold) + exhaustive precedence differential + pair/triple chain differential on the real parser",
+    trusted_base=["Model/Pratt.lean mirrors src/parser/mod.rs parse_subexpr/parse_prefix/parse_infix/parse_not/parse_in/parse_between and src/dialect/{mod,postgresql,snowflake,mysql}.rs precedence code by hand",
+                  "dialect_of! is modelled as a test on the built-in dialect's name; COLLATE_PREC=120 and BRACKET_PREC=130 are literals in Cfg.ofRow",
+                  "tree nodes of the model keep the tokens they consumed; the S-expression compared with the real AST forgets them"],
+    assumptions=["Gen/Dialects.lean and Gen/Keywords.lean are the tables of the crate as built from /repo's working tree",
+                 "the input of the model is the non-whitespace token list the real tokenizer produced"],
+)
+
+CURSOR_TB = ["Model/Cursor.lean mirrors peek_nth_token / next_token / prev_token / *_no_skip / consume_tokens (hand-written; tied by the op-sequence stream)",
+             "meta-step: Rust code that touches Parser.tokens/index only through the inventoried API behaves like some Prog (privacy of the fields is enforced by rustc; the set of functions with raw access is re-extracted and compared on every run)"]
+
+PROPS["C07"] = dict(
+    lean=["SqlVerif.Props.C07"],
+    namespaces=["SqlVerif.Props.C07"],
+    required=["SqlVerif.Props.C07.cursor_refinement", "SqlVerif.Props.C07.layout_blind", "SqlVerif.Props.C07.layout_blind_accepts"],
+    corr=["cursor"],
+    unique_output={"cursor": False},
+    oracle=["C07"],
+    level_text="Proved in Lean for ALL programs over the parser's cursor API (a deep embedding with function-typed continuations; tokens are handed over without locations), all token vectors and all whitespace predicates: a program that uses no *_no_skip operation behaves on the raw token vector exactly as on the list of non-whitespace tokens (refinement, incl. errors, reported positions and the prev_token panic), hence two vectors with the same non-whitespace tokens give the same tree / the same rejection whatever whitespace and comments lie between. The cursor model is tied to the code by an op-sequence differential on the real public API and by the regenerated inventory of functions with raw access to tokens/index and of *_no_skip callers. Partial: the lexer half (a whitespace run replaced by another changes only Whitespace tokens) is decided by the layout-replacement oracle on the real code (every whitespace run of every corpus text x 13 layouts x 13 dialects, accepted and rejected texts).",
+    level_note="Trusted: Lean kernel; hand-written cursor model; the meta-step that parse functions are programs over the inventoried API; the lexer lemma is not proved (oracle + tokenizer correspondence only). COPY payload and BigQuery hyphenated identifiers use *_no_skip by design (listed in the inventory).",
+    technique="Lean 4 refinement proof over all cursor programs + op-sequence differential + raw-access inventory + exhaustive layout-replacement oracle",
+    trusted_base=CURSOR_TB,
+    assumptions=["every parse function is a Skipping program except the inventoried *_no_skip callers"],
+)
+
+PROPS["C10"] = dict(
+    lean=["SqlVerif.Props.C10"],
+    namespaces=["SqlVerif.Props.C10"],
+    required=["SqlVerif.Props.C10.error_location_is_real", "SqlVerif.Props.C10.eof_error_has_no_position",
+              "SqlVerif.Props.C10.expected_found_same_token", "SqlVerif.Props.C10.full_statement_parser_half"],
+    corr=["cursor"],
+    unique_output={"cursor": False},
+    oracle=["C10"],
+    level_text="Proved in Lean for ALL programs over the cursor API (so for every parse function, whatever it does) and all token vectors: a location that ends up in an error is the location of a token of the input that the program was handed, or the (0,0) of the EOF sentinel, which prints as no position; programs cannot compute with locations. Tied to the code by the cursor op-sequence differential (returned tokens AND locations compared) and by regenerated inventories (every Location{..} literal in the parser is (0,0); every TokenWithLocation{..} construction; no hash iteration/time/randomness in src/). Partial: which message is paired with which token at each error site, the lexical/syntactic kind, and the tokenizer's error positions are decided by the rejection oracle on the real code (token-level mutations of every corpus text, all dialects).",
+    level_note="Trusted: Lean kernel; hand-written cursor model; meta-step as for C07. Two functions read tokens[index-1] directly for an error position (parse_literal_char, parse_create_role): modelled as a handle to the last consumed token. Lexer error positions wait for the tokenizer model (C09).",
+    technique="Lean 4 theorem over all cursor programs (location soundness) + inventories + rejection-position oracle",
+    trusted_base=CURSOR_TB,
+    assumptions=["parser_err!/expected() are the only constructors of positioned parser errors"],
+)
+
+PROPS["C14"] = dict(
+    lean=["SqlVerif.Props.C14"],
+    namespaces=["SqlVerif.Props.C14"],
+    required=["SqlVerif.Props.C14.with_tokens_agrees", "SqlVerif.Props.C14.retarget_forgets"],
+    corr=["cursor"],
+    unique_output={"cursor": False},
+    oracle=["C14"],
+    level_text="Proved in Lean for ALL programs over the cursor API (including no-skip ones) and all token vectors: feeding the tokens without locations (with_tokens) gives the same value / the same error message / a panic iff a panic as feeding them with locations, and re-targeting replaces the whole cursor state so a run depends only on its own tokens. Tied to the code by the cursor op-sequence differential and the raw-access inventory. Partial: equality of the five public routes on real texts, standalone-vs-embedded parse_expr/parse_data_type/parse_object_name and restoration of state/options/depth after every run (Ok or Err) are decided on the real code (every corpus literal x 13 dialects x option sets; fragments harvested from parsed trees; random reuse histories checked with the verif_state hook).",
+    level_note="Trusted: Lean kernel; hand-written cursor model; meta-step as for C07. Parser flags (state, trailing_commas, depth) are not part of the Prog model: their restoration is checked by the reuse oracle only.",
+    technique="Lean 4 theorem over all cursor programs (location erasure, retargeting) + route/embedded/reuse oracles with state hook",
+    trusted_base=CURSOR_TB,
+    assumptions=[],
+)
+
 NOT_CLAIMED = {}
